@@ -653,6 +653,12 @@ impl<'a, F: FeatureProvider, V: VariationInfo> CompilationCtx<'a, F, V> {
             // This is explicitly forbidden in the OpenType spec, and
             // explicitly encouraged in the FEA spec, and everyone else does it.
             // see https://github.com/adobe-type-tools/afdko/issues/1438
+            //
+            // like any other multiple-sub rule, this joins a preceding run of
+            // single-sub rules instead of starting a second lookup.
+            if self.lookups.has_same_flags(self.lookup_flags) {
+                self.lookups.promote_single_sub_to_multi_if_necessary();
+            }
             let lookup = self.ensure_current_lookup_type(Kind::GsubType2, node.range());
             for target in target.iter() {
                 lookup.add_gsub_type_2(target, vec![]);
